@@ -107,11 +107,13 @@ class MolecularContainer:
         # make a new configuration to hold the average values
         avr_conformation = ConformationContainer(
             name='average', parameters=parameters, molecular_container=self)
-        for conf_name in self.conformation_names:
+        for index, conf_name in enumerate(self.conformation_names):
             container = self.conformations[conf_name]
             for group in container.get_groups_for_calculations():
-                # groups of later conformations which were already averaged
-                if avr_conformation.find_group(group):
+                # groups which also exist in an earlier conformation were
+                # already averaged
+                if any(self.conformations[name].find_group(group)
+                       for name in self.conformation_names[:index]):
                     continue
                 # new group to hold average values
                 avr_group = group.clone()
